@@ -446,6 +446,7 @@ func (e *env) runOpSim(i int, op *Op) {
 	for k := range e.defs {
 		delete(e.defs, k)
 	}
+	e.owned = e.owned[:0]
 	out := e.execOp(op)
 	after := bumpOpsDone()
 	if after-before > 1 {
@@ -457,6 +458,8 @@ func (e *env) runOpSim(i int, op *Op) {
 	if out.Out != "" {
 		e.holdString(out.Out, "string")
 	}
+	// the caller reuses the byte slices it passed as operands
+	e.scribbleOwned()
 	e.recheck(6, e.immutabilityProp())
 }
 
